@@ -236,6 +236,13 @@ func c05RunGadget(c c05Case) (bool, bool, bool, string, eng.Result) {
 	if res.Outcome == eng.Accept {
 		return true, false, false, fmt.Sprintf("gadget %s%v (%s flavour): %s hint #%d (%s) honest outputs %v replaced by %v and ACCEPTED", c.Gadget, c.In, eng.Mode(c.Mode), inj.Kind, c.Index, inj.Caller, inj.Honest, inj.Subst), res
 	}
+	if eng.Mode(c.Mode) == eng.ModePlain || c.Force {
+		// bit-decomposition flavours: the prover also controls gnark's own decomposition hint
+		r2, _ := gad.Run(eng.Options{Mode: eng.Mode(c.Mode), ForceBitDecomp: c.Force, LumpBits: true, Plan: eng.Plan{c.Index: c.Subst.subst()}}, unstrs(c.In), g.fn)
+		if r2.Outcome == eng.Accept {
+			return true, false, false, fmt.Sprintf("gadget %s%v (%s flavour): %s hint #%d outputs %v replaced by %v is ACCEPTED when the bit-decomposition hint also answers dishonestly (digits = (value,0,..))", c.Gadget, c.In, eng.Mode(c.Mode), inj.Kind, c.Index, inj.Honest, inj.Subst), r2
+		}
+	}
 	return false, false, false, "", res
 }
 
